@@ -512,6 +512,8 @@ def accept (cfg : Config) (rp : Option RoutePath) : Bool :=
 
 inductive RouteArg where
   | dflt                    -- route_path=None: the class default '1/0'
+  | dfltAs (t : Text)       -- route_path=None on a connector whose `route_path_default` was set to `t`
+                            -- (class or instance attribute; '' / False / 0 = no route path)
   | falsy                   -- False / 0 / [] / ''
   | text (t : Text)
   | list (xs : List JV)
@@ -530,6 +532,7 @@ def clientCarried (r : RouteArg) (s : SendArg) : Option (Option RoutePath) :=
   let parsed : Option RoutePath :=
     match r with
     | .dflt => parseRoutePath routeDefault
+    | .dfltAs t => if t.isEmpty then some [] else parseRoutePath t    -- `self.route_path_default`, not the module constant
     | .falsy => some []
     | .text t => if t.isEmpty then some [] else parseRoutePath t
     | .list xs => if xs.isEmpty then some [] else parseRouteList xs
